@@ -21,7 +21,7 @@ Cfg == [cid |-> "c1", rd |-> 10, rc |-> 2, ct |-> 50, ka |-> 20, kaloop |-> FALS
 Levels(n) == CASE n = "t/a" -> <<"t", "a">> [] n = "t/b" -> <<"t", "b">> [] n = "t/#" -> <<"t", "#">>
                [] n = "t/+" -> <<"t", "+">> [] n = "#" -> <<"#">> [] n = "ab" -> <<"ab">> [] n = "cd" -> <<"cd">>
                [] n = "pre/x" -> <<"pre", "x">> [] n = "pre/z" -> <<"pre", "z">> [] n = "own/z" -> <<"own", "z">>
-               [] n = "t/new" -> <<"t", "new">> [] OTHER -> <<n>>
+               [] n = "t/new" -> <<"t", "new">> [] n = "t" -> <<"t">> [] OTHER -> <<n>>
 \* "x:c3a9" is the harness token (absmap.EncName) of the two-byte name c3 a9 (one non-ASCII UTF-8 character)
 Hi == "x:c3a9"
 IsShort(n) == n \in {"ab", "cd", Hi}
@@ -52,7 +52,8 @@ Calls(st) ==
                                    \cup {ApiId("UnsubscribePredefined", i, 0, "") : i \in {6}} ELSE {})
     \cup (IF "sleep" \in Groups THEN {[Plain("Sleep") EXCEPT !.dur = 20], [Plain("Sleep") EXCEPT !.dur = 20, !.async = TRUE]} ELSE {})
 
-BNames == {"t/a", "t/new", "pre/x", "pre/z", "own/z"} \cup Shorts
+\* "t": the parent level, matched by "t/#" and a proper level-prefix of the filters "t/a", "t/+"
+BNames == {"t/a", "t/new", "t", "pre/x", "pre/z", "own/z"} \cup Shorts
 BPubs(st) ==
     IF "bpub" \notin Groups THEN {}
     ELSE {BPub(st, <<Pub(st, n, q, 1)>>) : n \in BNames, q \in Qoss \ {3}}
